@@ -16,7 +16,8 @@ try:
         H.project_sync()
     with H.Lock():
         H.project_sync()
-        rc, out = H.sh(["make", "-k", "-j%d" % H.NCPU], 3400, cwd=str(H.COQ))
+        # per-file time limit so that one runaway file cannot stall the whole setup
+        rc, out = H.sh(["make", "-k", "-j%d" % H.NCPU, "TIMED=1", "COQC=timeout 1200 coqc"], 3300, cwd=str(H.COQ))
 except H.BuildError as e:
     print(e.what)
     print((e.log or "")[-6000:])
@@ -25,4 +26,8 @@ if rc != 0:
     # every check rebuilds its own cone and reports a broken obligation itself; setup only warms the build
     print("setup: some files did not build (each check reports its own cone):")
     print("\n".join(l for l in out.split("\n") if "Error" in l or "File \"" in l or "***" in l)[-3000:])
+import re
+times = sorted(((float(m.group(2)), m.group(1)) for m in re.finditer(r"^(\S+)\s+\(real: ([0-9.]+)", out, flags=re.M)),
+               reverse=True)
+print("setup: slowest files: " + ", ".join("%s %.0fs" % (f, s) for s, f in times[:8]))
 print("setup: build finished in %.0fs (rc=%d)" % (time.time() - t0, rc))
